@@ -73,6 +73,40 @@ def h_candidate(ctx, kind, variant=0):
     ctx.observe("line", line)
 
 
+class _Json:
+    """json stand-in for the signalling helper: a lossless codec (the text form is not modelled)."""
+
+    class _Text:
+        def __init__(self, obj):
+            self.obj = obj
+
+    @staticmethod
+    def dumps(obj, sort_keys=False):
+        return _Json._Text(dict(obj))
+
+    @staticmethod
+    def loads(text):
+        return dict(text.obj)
+
+
+def h_signaling(ctx, kind, variant=0):
+    """contrib.signaling: a candidate survives object_to_string / object_from_string."""
+    from aiortc.contrib import signaling
+
+    from .util import Patch
+
+    VARIANT[0] = variant
+    c = _candidate(ctx, "", kind)
+    c.sdpMid = _tok(ctx, "mid", 1)
+    c.sdpMLineIndex = ctx.int("mline", 0, 9)
+    with Patch(signaling, json=_Json):
+        d = signaling.object_from_string(signaling.object_to_string(c))
+    ctx.reach("signalled")
+    ctx.check(_cand_eq(c, d), "signalled-candidate-fields-roundtrip")
+    ctx.check(sx.And(sx.deep_eq(d.sdpMid, c.sdpMid), sx.deep_eq(d.sdpMLineIndex, c.sdpMLineIndex)), "signalled-candidate-keeps-mid-and-mline-index")
+    ctx.observe("ok", True)
+
+
 def _media(ctx, i, kind, ncodecs, extras):
     tag = "m%d_" % i
     if kind == "application":
@@ -107,7 +141,8 @@ def _media(ctx, i, kind, ncodecs, extras):
             elif name == "opus":
                 codec.parameters = {"minptime": ctx.int(tag + "minptime%d" % j, 0, 1000), "useinbandfec": 1}
             if name != "rtx":
-                codec.rtcpFeedback = [RTCRtcpFeedback(type="nack"), RTCRtcpFeedback(type="nack", parameter="pli")][: pick(ctx, tag + "nfb%d" % j, [0, 1, 2])]
+                fb = [RTCRtcpFeedback(type="nack"), RTCRtcpFeedback(type="nack", parameter="pli"), RTCRtcpFeedback(type="ccm", parameter="tmmbr smaxpr=120")]
+                codec.rtcpFeedback = pick(ctx, tag + "nfb%d" % j, [[], fb[:1], fb[:2], fb[1:]])
             codecs.append(codec)
         m = MediaDescription(kind=kind, port=ctx.int(tag + "port", 0, U16), profile="UDP/TLS/RTP/SAVPF", fmt=list(pts))
         m.rtp = RTCRtpParameters(codecs=codecs)
@@ -239,6 +274,7 @@ def _desc_jobs(tier):
 
 
 HARNESSES = {
+    "signaling": Harness("signaling", h_signaling, lambda tier: [{"kind": k, "variant": v} for k in ("plain", "all") for v in range(3 if tier == "quick" else 6)], style="RT", bounds="candidates as in the candidate harness (IPv4 and IPv6 addresses) through contrib.signaling object_to_string/object_from_string", encoded=["aiortc.contrib.signaling:object_to_string", "aiortc.contrib.signaling:object_from_string"] + ENC, stubs=STUBS + ["json.dumps/loads -> lossless stand-in (the JSON text is not modelled)"], outside=OUT, twin="signalled"),
     "candidate": Harness("candidate", h_candidate, lambda tier: [{"kind": k, "variant": v} for k in ("plain", "raddr", "tcptype", "all") for v in range(6)], style="RT", bounds="all integer fields symbolic over their full range (lazy decimal atoms), foundation 2 symbolic letters, ip/protocol/type/tcptype from small sets, with and without raddr/rport/tcptype", encoded=ENC, stubs=STUBS, outside=OUT, twin="candidate-parsed"),
     "description": Harness("description", h_description, _desc_jobs, style="RT", bounds="<=2 media sections (audio/video/application, both SCTP syntaxes), <=2 codecs with symbolic payload type / clock rate / channels / fmtp int, str and flag-like parameters / <=2 feedback entries, header extension, 2 SSRCs + cname + FID group, ICE ufrag/pwd/options, one candidate, end-of-candidates, fingerprint, setup role, sctp-port, max-message-size, BUNDLE and WMS groups, session and media c= lines", encoded=ENC, stubs=STUBS, outside=OUT, twin="parsed", opts={"samples": 1}),
 }
